@@ -128,7 +128,8 @@ class ShaclSerializer(object):
 
 
     def _add_target_class(self, shape, r_shape_uri):
-        if shape.class_uri is not None:
+        if shape.class_uri is not None and \
+                not shape.class_uri.startswith(("<", STARTING_CHAR_FOR_SHAPE_NAME)):  # those are shape map labels, not classes
             self._add_triple(r_shape_uri,
                              _R_SHACL_TARGET_CLASS_PROP,
                              URIRef(shape.class_uri))  # TODO check if this is always an abs. URI, not sure
